@@ -1490,6 +1490,21 @@ class ProductSpaceElement(LinearSpaceElement):
 # --- Add arithmetic operators that broadcast --- #
 
 
+def _shares_memory(x, y):
+    """Return ``True`` if the elements ``x`` and ``y`` may share memory."""
+    if x is y:
+        return True
+    elif isinstance(x, ProductSpaceElement):
+        return (isinstance(y, ProductSpaceElement) and
+                len(x) == len(y) and
+                any(_shares_memory(xi, yi) for xi, yi in zip(x, y)))
+    else:
+        try:
+            return np.shares_memory(x.data, y.data)
+        except (AttributeError, TypeError):
+            return False
+
+
 def _broadcast_arithmetic(op):
     """Return ``op(self, other)`` with broadcasting.
 
@@ -1518,6 +1533,12 @@ def _broadcast_arithmetic(op):
     """
     def _broadcast_arithmetic_impl(self, other):
         if (self.space.is_power_space and other in self.space[0]):
+            if (op.startswith('__i') and
+                    any(_shares_memory(xi, other) for xi in self)):
+                # In-place: `other` is (or shares memory with) one of the
+                # parts of `self`, which are modified one after the other
+                other = other.copy()
+
             results = []
             for xi in self:
                 res = getattr(xi, op)(other)
